@@ -353,6 +353,8 @@ def min_(a, b):
 
 def abs_(a):
     if isinstance(a, Cx):
+        if iszero(a.im):
+            return abs_(a.re)  # purely real complex value: |re| without a sqrt term
         return sqrt(add(mul(a.re, a.re), mul(a.im, a.im)))
     if not isz(a):
         return abs(a)
